@@ -133,6 +133,39 @@ def hidden_constructor():
     return None
 
 
+def dropped_members_are_not_linked():
+    """a component or binding that the display options exclude is neither described on its type's page nor linked to: it is out of the type's lists *and* prints as a plain name"""
+    text = ("module m\n  implicit none\n  type :: t\n    !! t doc\n    integer :: shown\n      !! shown doc\n    integer, private :: secret_comp\n      !! secret doc\n  contains\n    procedure :: pub_bind => impl\n"
+            "    procedure, private :: secret_bind => impl\n  end type t\ncontains\n  subroutine impl(self)\n    class(t) :: self\n  end subroutine impl\nend module m\n")
+    proj = realrun.build_project({"src/m.f90": text}, correlate=False)
+    t = proj.modules[0].types[0]
+    members = list(t.variables) + list(t.boundprocs)
+    import io, contextlib
+    with contextlib.redirect_stdout(io.StringIO()), contextlib.redirect_stderr(io.StringIO()):
+        proj.correlate()
+    kept = {id(x) for x in list(t.variables) + list(t.boundprocs)}
+    bad = [(x.name, "listed" if id(x) in kept else "dropped", bool(getattr(x, "visible", False)), str(x)[:60]) for x in members
+           if (id(x) in kept) != bool(getattr(x, "visible", False)) or (id(x) not in kept and "<a " in str(x))]
+    if bad or {x.name for x in members if id(x) in kept} != {"shown", "pub_bind"}:
+        return {"confirmed": True, "input": {"source": text, "display": "public, protected (default)"}, "actual": bad or sorted(x.name for x in members if id(x) in kept),
+                "expected": "shown and pub_bind listed, visible and linked; secret_comp and secret_bind dropped, not visible, plain names", "how": "real Project + correlate: every member of a type before and after pruning"}
+    return None
+
+
+def toplevel_internals_case():
+    """the display options reach the contents of a procedure that stands outside any module like those of a module procedure"""
+    text = ("subroutine outer()\n  !! outer doc\n  integer :: documented\n    !! doc\n  integer :: undocumented\ncontains\n  subroutine inner_doc()\n    !! inner doc\n  end subroutine inner_doc\n"
+            "  subroutine inner_undoc()\n  end subroutine inner_undoc\nend subroutine outer\n")
+    for st in (dict(proc_internals=True, hide_undoc=True), dict(proc_internals=True, hide_undoc=True, display=["public", "private", "protected"])):
+        proj = realrun.build_project({"src/o.f90": text}, **st)
+        o = next(p for p in proj.procedures if p.name == "outer")
+        got = (sorted(p.name for p in o.subroutines), sorted(v.name for v in o.variables))
+        if got != (["inner_doc"], ["documented"]):
+            return {"confirmed": True, "input": {"source": text, "settings": st}, "actual": got, "expected": (["inner_doc"], ["documented"]),
+                    "how": "real Project + correlate: internal procedures and variables left on the page of a top-level procedure with hide_undoc"}
+    return None
+
+
 def display_spellings():
     """`display` given as one value (a TOML string, a keyword argument) selects what the one-element list selects, in any letter case"""
     text = "module m\n  implicit none\n  private\n  public :: pub\ncontains\n  subroutine pub()\n    !! public one\n  end subroutine pub\n  subroutine hid()\n    !! hidden one\n  end subroutine hid\nend module m\n"
@@ -160,7 +193,7 @@ def cases():
 
 
 def search(limit=None):
-    hit = hidden_procedure_namelist() or module_procedure_body() or metadata_key_case() or hidden_constructor() or display_spellings() or __import__("bounded.c04", fromlist=["x"]).multi_name_binding_case() or __import__("bounded.c04", fromlist=["x"]).protected_and_public_case()
+    hit = hidden_procedure_namelist() or module_procedure_body() or metadata_key_case() or hidden_constructor() or display_spellings() or dropped_members_are_not_linked() or toplevel_internals_case() or __import__("bounded.c04", fromlist=["x"]).multi_name_binding_case() or __import__("bounded.c04", fromlist=["x"]).protected_and_public_case()
     if hit:
         return hit
     n = 0
